@@ -1290,9 +1290,11 @@ func (cs *consensus) doSendVote(vt VoteType, blockParts *blockPartSet) error {
 	}
 	if err := cs.roundWAL.WriteMessageBytes(msg.subprotocol(), msgBS); err != nil {
 		cs.log.Errorf("fail to write WAL: sendVote: %+v\n", err)
+		return err
 	}
 	if err := cs.roundWAL.Sync(); err != nil {
 		cs.log.Errorf("fail to sync WAL: sendVote: %+v\n", err)
+		return err
 	}
 	cs.log.Debugf("sendVote %v\n", msg)
 	if vt == VoteTypePrevote {
